@@ -122,6 +122,9 @@ func (w *c18World) c18Deadlines(now time.Time) []time.Time {
 				if e.exp.After(now) && e.exp.Sub(now) <= 2*time.Hour {
 					ds = append(ds, e.exp)
 				}
+				if e.sureUntil.After(now) && e.sureUntil.Before(e.exp) && e.sureUntil.Sub(now) <= 2*time.Hour {
+					ds = append(ds, e.sureUntil)
+				}
 			}
 		}
 	}
@@ -139,7 +142,14 @@ func (w *c18World) c18Deadlines(now time.Time) []time.Time {
 func TestC18_Table(t *testing.T) {
 	rapid.Check(t, func(rt *rapid.T) {
 		c18Bubble(t, func(cleanup *[]func()) {
-			w := c18NewWorld(consts.DialMode_Ip, nil, rapid.Bool().Draw(rt, "optimistic"))
+			fixed := map[string]int{}
+			if rapid.IntRange(0, 3).Draw(rt, "usefixed") > 0 {
+				// fixed_domain_ttl shorter and longer than the answers' TTLs
+				fixed[c18PoolNames[0]] = rapid.SampledFrom([]int{1, 5, 0, 30}).Draw(rt, "fixed_short")
+				fixed[c18PoolNames[1]] = rapid.SampledFrom([]int{3600, 600, 86400}).Draw(rt, "fixed_long")
+				fixed[c18PoolNames[2]] = rapid.SampledFrom([]int{5, 600, 60}).Draw(rt, "fixed_mid")
+			}
+			w := c18NewWorldFixed(consts.DialMode_Ip, nil, rapid.Bool().Draw(rt, "optimistic"), fixed)
 			*cleanup = append(*cleanup, w.close)
 			ctr := 0
 			nops := rapid.IntRange(20, 60).Draw(rt, "nops")
@@ -168,8 +178,16 @@ func TestC18_Table(t *testing.T) {
 					if d > 0 {
 						time.Sleep(d)
 					}
-				case k < 94:
+				case k < 93:
 					w.c18ShadowScenario(rt)
+				case k < 95:
+					fresh := rapid.Bool().Draw(rt, "reload_fresh")
+					if err := w.reload(fresh); err != nil {
+						rt.Fatalf("reload (fresh=%v) failed: %v", fresh, err)
+					}
+					vkClass(c18UnitTable, fmt.Sprintf("op_reload_fresh_%v", fresh))
+				case k < 97:
+					w.c18ReloadScenario(rt)
 				default:
 					// a real-domain probe verdict for some spelling of a pool name
 					n := rapid.SampledFrom(c18PoolNames).Draw(rt, "rd_name")
@@ -228,4 +246,53 @@ func (w *c18World) c18ShadowScenario(rt *rapid.T) {
 	ask() // while the address answer is live
 	time.Sleep(time.Duration(addr.Ttl)*time.Second + time.Duration(rapid.SampledFrom([]int{31, 61, 1, 95}).Draw(rt, "sh_wait"))*time.Second)
 	ask() // after expiry (and usually eviction) of the address answer
+}
+
+// c18ReloadScenario: a name with a fixed_domain_ttl entry is resolved through dae,
+// the configuration is reloaded, and the name is asked for between the fixed
+// deadline and the answer's own deadline (whichever comes first) and after both.
+func (w *c18World) c18ReloadScenario(rt *rapid.T) {
+	if len(w.fixed) == 0 {
+		return
+	}
+	idx := rapid.IntRange(0, 2).Draw(rt, "rl_name")
+	name := c18PoolNames[idx]
+	fixed := w.fixed[name]
+	v6 := rapid.Bool().Draw(rt, "rl_v6")
+	in := c18Insert{Name: name, QName: name + ".", Qtype: dnsmessage.TypeA, Shape: "addr",
+		Ttl:   rapid.SampledFrom([]uint32{300, 1, 5, 60, 0}).Draw(rt, "rl_ttl"),
+		Scope: rapid.SampledFrom([]string{"", "upstream@udp://8.8.8.8:53"}).Draw(rt, "rl_scope")}
+	dst := netip.MustParseAddrPort("203.0.113.9:443")
+	if v6 {
+		in.Qtype = dnsmessage.TypeAAAA
+		dst = netip.MustParseAddrPort("[2001:db8::1]:443")
+	}
+	if err := w.insert(in); err != nil {
+		rt.Fatalf("production cache insert failed for %+v: %v", in, err)
+	}
+	ask := func() {
+		q := c18Query{Mode: consts.DialMode_Domain, Ob: consts.OutboundUserDefinedMin, ObKind: "user", Dst: dst, Sn: c18Classify(name, "name")}
+		w.c18Ask(rt, c18UnitTable, q)
+	}
+	ask()
+	if rapid.IntRange(0, 3).Draw(rt, "rl_presleep") == 0 {
+		time.Sleep(time.Second)
+	}
+	fresh := rapid.Bool().Draw(rt, "rl_fresh")
+	if err := w.reload(fresh); err != nil {
+		rt.Fatalf("reload (fresh=%v) failed: %v", fresh, err)
+	}
+	vkClass(c18UnitTable, fmt.Sprintf("op_reload_scenario_fresh_%v", fresh))
+	ask()
+	lo, hi := time.Duration(fixed)*time.Second, time.Duration(in.Ttl)*time.Second
+	if lo > hi {
+		lo, hi = hi, lo
+	}
+	// into the window between the two deadlines, then past both
+	time.Sleep(lo + time.Second + time.Duration(rapid.IntRange(0, 2).Draw(rt, "rl_in"))*time.Second)
+	ask()
+	if hi-lo < 2*time.Hour {
+		time.Sleep(hi - lo + 31*time.Second)
+		ask()
+	}
 }
